@@ -16,6 +16,9 @@ CLAIMED = {
  "C10": ("typestate / must-pass-through / lockset dataflow on SSA, who-may-close, close-chain rule (static)",
          "Path skeleton of the source life cycle decided for every path and implementation: error exits of the start function reset the state; run-done WaitGroup balanced per exit; core loop defers deactivation at entry and returns on a closed block channel; every mutex released exactly once on all paths; life-cycle state written only under its mutex; nothing blocking under the state mutex; abort closed only through the close-once helper under the mutex, before the barrier wait; run state touched by Stop only after the barrier; abort/next-block channels re-made per start; abort arm of every looping producer closes the chain and every intermediate receiver forwards or closes. Not decided: deadlock freedom over all interleavings, runtime goroutine census, release of OS resources on failed start (R5 not built).",
          "life-cycle constants and the AnySource/SourceState types are name-keyed anchors; VTA resolves the six implementations", "DESIGN.md §2 C10"),
+ "C05": ("field read-set vs assigned-set, argument provenance tables at installer call sites, serialisation-layout extraction of append-built records vs layouts parsed from doc/LJH.md and the OFF layout comment, key-set agreement, dominance/control of create-header-record (static)",
+         "Structural clauses decided: every header field a writer serialises (directly or via JSON of exported fields) is assigned somewhere; at the three installer call sites each argument is the documented quantity of that same channel and inside the installers each parameter lands in the field of the same meaning; each per-record writer emits one fixed slot sequence (widths, int/float, parameter provenance, variable block last, declared size = parts) equal to the documented layout, with sub-frame count = framecount*divisions+offset, and PublishData passes each record's own fields in the documented units; reader/doc keys are written with identical spelling (one recorded known finding); per writer, creation and header precede the records, the header is guarded by the header-written flag, and every element of the published slice is written in order. Not decided: body = exactly the accepted records end to end, file length, matrix contents, LJH3 (no document) beyond internal consistency.",
+         "json.Marshal serialises exactly the exported fields; parameter names of the installers carry their meaning (provenance table keyed by parameter name); doc formats as parsed by the rule's regexps", "DESIGN.md §2 C05"),
  "C06": ("sibling agreement, must-pass-through, loop-dominance and effect-before-rejection rules on SSA (static)",
          "Coupling of reported writing state and per-channel gates decided for every path of the write-control code: installers clear the pause flag; PAUSE/UNPAUSE set every processor then report the same value on every path; reported-inactive is dominated by removal of every handle from every processor; reported-active is dominated by the installing loop whose guards are the flags copied into the reported file types; constructed-error rejections have no prior effect; file writing is dominated by the not-paused and presence tests while publication is not; installers are dominated by a universal has-writer rejection loop; only write-control code writes Active/Paused/pause flag; START writes into a directory found absent and then created. Not decided: directory numbering, histories with I/O failures inside WritingState.Start/Stop.",
          "DataPublisher/WritingState are name-keyed anchors; handles, installers, removers, predicates and the processors field are discovered structurally", "DESIGN.md §2 C06"),
